@@ -6,7 +6,7 @@
    Part C: refutation witnesses (zero scores / squeeze; stale cursor after load / reset)
            and the positive statements for the V_fixed variant. *)
 From Coq Require Import ZArith List Bool QArith Qcanon String Arith Lia Permutation.
-From TE Require Import Base.Val Base.Xq Algebra.Metric Algebra.Pool Models.Window Models.WindowAUROC.
+From TE Require Import Base.Val Base.Xq Algebra.Metric Algebra.Pool Models.Curves Models.Window Models.WindowAUROC.
 Import ListNotations.
 Open Scope list_scope.
 Open Scope nat_scope.
@@ -426,15 +426,15 @@ Qed.
 (* when no score in the window is zero and the window has been filled, compute() reads a
    rotation (hence a permutation) of the last N samples; before that, exactly the samples seen.
    (That AUROC is invariant under permutation of its samples is the C05 theorem.) *)
-Definition nonzero_col (cl : col) : bool := existsb (fun sm => negb (qeq (s_x sm) 0)) cl.
+Definition nonzero_col (cl : col) : bool := existsb (fun sm => negb (sc sm =? 0)%Z) cl.
 
 Lemma zero_scores_false_in (l : list col) x : In x l -> nonzero_col x = true -> zero_scores l = false.
 Proof.
   induction l as [|y l IH]; intros Hin Hx; [destruct Hin|]. cbn [zero_scores forallb].
   destruct Hin as [->|Hin].
-  - assert (E : forallb (fun sm => qeq (s_x sm) 0) x = false).
+  - assert (E : forallb (fun sm => (sc sm =? 0)%Z) x = false).
     { unfold nonzero_col in Hx. apply existsb_exists in Hx as (sm & Hsm & Hnz).
-      destruct (forallb (fun sm0 => qeq (s_x sm0) 0) x) eqn:E; [|reflexivity].
+      destruct (forallb (fun sm0 => (sc sm0 =? 0)%Z) x) eqn:E; [|reflexivity].
       rewrite forallb_forall in E. rewrite (E sm Hsm) in Hnz. discriminate. }
     rewrite E. reflexivity.
   - fold (zero_scores l). rewrite (IH Hin Hx). apply andb_false_r.
@@ -477,22 +477,22 @@ End AurocBuf.
 (* Part C: witnesses                                                                      *)
 (* ------------------------------------------------------------------------------------- *)
 Definition q (n : Z) (d : positive) : Qc := mkq n d.
-Definition sm (x : Qc) (y : Z) : col := [{| s_x := x; s_y := q y 1; s_w := q 1 1 |}].
+Definition sm (x : Z) (y : bool) : col := [(x, (y, q 1 1))].          (* score x/10, label, weight 1 *)
 
 (* D6 (a): N = 4, samples (.9,0)(.8,1)(.7,1)(0,1) then (.5,0)(.4,1)(.3,0).  The window holds
    (0,1)(.5,0)(.4,1)(.3,0); the slot after the cursor holds the score 0, is taken for "unfilled",
    and compute() evaluates only the three newest samples. *)
-Definition d6_cfg : acfg := {| aT := 1; aN := 4 |}.
+Definition d6_cfg : acfg := {| aT := 1; aN := 4; aDen := 10 |}.
 Definition d6_batches : list (list col) :=
-  [ [sm (q 9 10) 0; sm (q 8 10) 1; sm (q 7 10) 1; sm (q 0 1) 1];
-    [sm (q 5 10) 0; sm (q 4 10) 1; sm (q 3 10) 0] ].
+  [ [sm 9 false; sm 8 true; sm 7 true; sm 0 true];
+    [sm 5 false; sm 4 true; sm 3 false] ].
 Lemma d6_zero_score :
   acmp d6_cfg (fold_left (aupd d6_cfg) d6_batches (ainit d6_cfg)) = AScalar (q 1 2) /\
   auroc_ref d6_cfg (lastn 4 (List.concat d6_batches)) = AScalar (q 1 4).
 Proof. split; vm_compute; reflexivity. Qed.
 
 (* D6 (b): a window holding exactly one sample: (1,1).squeeze() is 0-dimensional *)
-Definition d6b_batches : list (list col) := [ [sm (q 9 10) 0] ].
+Definition d6b_batches : list (list col) := [ [sm 9 false] ].
 Lemma d6_single_sample :
   acmp d6_cfg (fold_left (aupd d6_cfg) d6b_batches (ainit d6_cfg)) = AErr /\
   auroc_ref d6_cfg (lastn 4 (List.concat d6b_batches)) = AScalar (q 1 2).
@@ -500,9 +500,9 @@ Proof. split; vm_compute; reflexivity. Qed.
 
 (* D6 (c): max_num_samples = 1 with two tasks: (2,1).squeeze() = (2,), the task axis is read as
    the sample axis and a single number comes back instead of one AUROC per task *)
-Definition d6c_cfg : acfg := {| aT := 2; aN := 1 |}.
+Definition d6c_cfg : acfg := {| aT := 2; aN := 1; aDen := 10 |}.
 Definition d6c_batches : list (list col) :=
-  [ [ [{| s_x := q 9 10; s_y := q 0 1; s_w := q 1 1 |}; {| s_x := q 3 10; s_y := q 1 1; s_w := q 1 1 |}] ] ].
+  [ [ [(9%Z, (false, q 1 1)); (3%Z, (true, q 1 1))] ] ].
 Lemma d6_one_slot_two_tasks :
   acmp d6c_cfg (fold_left (aupd d6c_cfg) d6c_batches (ainit d6c_cfg)) = AScalar (q 0 1) /\
   auroc_ref d6c_cfg (lastn 1 (List.concat d6c_batches)) = AVec [q 1 2; q 1 2].
@@ -578,8 +578,8 @@ Lemma wne_load_breaks : load_breaks (wne V_code) (wne_codec V_code).
 Proof. exists wcfg3, [o_upd 0 (wne_b 1 1); o_upd 0 (wne_b 1 0)], [wne_b 3 1; wne_b 3 1; wne_b 3 1]. vm_compute. discriminate. Qed.
 Lemma wne_reset_breaks : reset_breaks (wne V_pre) (wne_codec V_pre).
 Proof. exists wcfg3, [o_upd 0 (wne_b 1 1); o_upd 0 (wne_b 1 0)], [wne_b 3 1; wne_b 3 1; wne_b 3 1]. vm_compute. discriminate. Qed.
-Definition acfg3 : acfg := {| aT := 1; aN := 3 |}.
-Definition au_b (num : Z) (y : Z) : val := VL [VL [VL [VQ num 8]]; vrow [y]; vrow [1%Z]].
+Definition acfg3 : acfg := {| aT := 1; aN := 3; aDen := 8 |}.
+Definition au_b (num : Z) (y : Z) : val := VL [vrow [num]; vrow [y]; vrow [1%Z]].
 Lemma wauroc_load_breaks : load_breaks (wauroc V_code) (wauroc_codec V_code).
 Proof. exists acfg3, [o_upd 0 (au_b 7 0); o_upd 0 (au_b 6 1)], [au_b 5 1; au_b 4 0; au_b 3 1]. vm_compute. discriminate. Qed.
 Lemma wauroc_reset_breaks : reset_breaks (wauroc V_pre) (wauroc_codec V_pre).
@@ -628,3 +628,43 @@ Proof.
   cbn -[set_nth nth Z.of_nat Z.to_nat]. rewrite Hr. reflexivity.
 Qed.
 End FixedPool.
+
+(* ------------------------------------------------------------------------------------- *)
+(* Part D: WindowedBinaryAUROC.compute() = the AUROC definition on the last N samples      *)
+(*         (closes auroc_reads_lastN_partial with the C05 theorems of Proofs/CurvesP.v)    *)
+(* ------------------------------------------------------------------------------------- *)
+From TE Require Import Proofs.CurvesP.
+Close Scope Qc_scope.
+Open Scope nat_scope.
+Section AurocSpec.
+Variable c : acfg.
+
+Lemma rows_spec_perm (u L : list col) : Permutation u L ->
+  map auroc_spec (rows_of c u) = map auroc_spec (rows_of c L).
+Proof.
+  intros H. unfold rows_of. rewrite !map_map. apply map_ext. intros t.
+  apply auroc_spec_perm, Permutation_map, H.
+Qed.
+
+(* compute() on any state whose read slots are a permutation of a sample list L with >= 2 samples *)
+Lemma acmp_of_perm (s : ast) (L : list col) : Permutation (aread s) L -> 2 <= List.length L ->
+  acmp c s = auroc_ref c L.
+Proof.
+  intros HP Hlen. pose proof (Permutation_length HP) as Hl. unfold acmp, auroc_ref.
+  destruct L as [|x [|y L']]; cbn [List.length] in Hlen; try lia.
+  destruct (List.length (aread s)) as [|[|k]] eqn:Hk; cbn [List.length] in Hl; try lia.
+  destruct (aT c) as [|[|T']] eqn:HT.
+  - rewrite auroc_kernel_spec. f_equal. apply rows_spec_perm, HP.
+  - rewrite auroc_row_spec. f_equal. unfold rows_of. rewrite HT. cbn [seq map nth].
+    apply auroc_spec_perm. apply (Permutation_map (fun cl : list smp => nth 0 cl smpz) HP).
+  - rewrite auroc_kernel_spec. f_equal. apply rows_spec_perm, HP.
+Qed.
+
+Theorem auroc_compute_is_spec (bs : list (list col)) : 0 < aN c ->
+  Forall (fun cl => nonzero_col cl = true) (List.concat bs) ->
+  2 <= List.length (lastn (aN c) (List.concat bs)) ->
+  acmp c (fold_left (aupd c) bs (ainit c)) = auroc_ref c (lastn (aN c) (List.concat bs)).
+Proof.
+  intros HN Hnz Hlen. apply acmp_of_perm; [|exact Hlen]. apply auroc_reads_lastN_partial; assumption.
+Qed.
+End AurocSpec.
